@@ -167,7 +167,15 @@ def run(ch: Choices, focus: str = "C20", params: Optional[dict] = None) -> dict:
 
     def viol(oracle, msg):
         if not any(v["oracle"] == oracle for v in V):
-            V.append({"property": "C20", "oracle": oracle, "message": msg})
+            V.append({"property": focus, "oracle": oracle, "message": msg})
+
+    if focus == "C13":
+        with ch.scope("rewrite"):
+            spec["rewrite"] = {"seed": 1 + ch.choose(10000, "seed"), "shuffle": ch.chance(2, 3, "shuffle"),
+                               "duplicate": ch.choose(3, "duplicate"), "always_true": ch.chance(1, 2, "always_true")}
+            if not any(spec["rewrite"][k] for k in ("shuffle", "duplicate", "always_true")):
+                spec["rewrite"]["shuffle"] = True
+        out["probes"]["shipped_model_rewrites"] += 1
 
     hard = hard_point(spec)
     if variant > 0:
